@@ -166,6 +166,20 @@ func program(name, server string) (setup, burst [][]byte, files map[string]strin
 			mustPkt(&sshFxpRemovePacket{ID: 16, Filename: nm("g")}),
 			mustPkt(&sshFxpClosePacket{ID: 17, Handle: "1"}),
 		}
+	case "extpair": // two requests of each extension in flight at once (the single command worker carries them out one after the other)
+		for _, n := range []string{"a1", "a2"} {
+			files[nm(n)] = "content of " + n
+		}
+		burst = [][]byte{
+			mustPkt(&sshFxpPosixRenamePacket{ID: 10, Oldpath: nm("a1"), Newpath: nm("b1")}),
+			mustPkt(&sshFxpPosixRenamePacket{ID: 11, Oldpath: nm("a2"), Newpath: nm("b2")}),
+			mustPkt(&sshFxpHardlinkPacket{ID: 12, Oldpath: nm("f"), Newpath: nm("h1")}),
+			mustPkt(&sshFxpHardlinkPacket{ID: 13, Oldpath: nm("g"), Newpath: nm("h2")}),
+			mustPkt(&sshFxpLstatPacket{ID: 14, Path: nm("b1")}),
+			mustPkt(&sshFxpLstatPacket{ID: 15, Path: nm("b2")}),
+			mustPkt(&sshFxpLstatPacket{ID: 16, Path: nm("h1")}),
+			mustPkt(&sshFxpLstatPacket{ID: 17, Path: nm("h2")}),
+		}
 	default:
 		panic("unknown program " + name)
 	}
@@ -290,6 +304,16 @@ func progScenario(o progOpts, prop string) explore.Scenario {
 			if msg := r.orderOracle(true); msg != "" {
 				v.Bad, v.Key = msg, "order:"+o.server
 				return v
+			}
+			if o.name == "extpair" {
+				// every request of this program succeeds (each rename and link has its own source, each LSTAT names a file made before it)
+				for i, f := range r.frames {
+					if c, ok := f.statusCode(); ok && c != sshFxOk {
+						v.Bad = fmt.Sprintf("response %d (%s to %s) is a failure; every request of this program names its own existing source: %v", i, f, fxp(r.reqTypes[i]), st)
+						v.Key = "ext-pair:" + o.server
+						return v
+					}
+				}
 			}
 			if o.ref != nil {
 				got := responseBytes(r.frames)
@@ -457,6 +481,8 @@ func init() {
 					pj("C02/sched", "os W=8 db3", "instr", "os", "rwmix+cmdmix+extmix+romix", 3, 900, false),
 					pj("C02/sched", "os W=2 db3 alloc", "instr-w2", "os", "rwmix+cmdmix+extmix", 3, 600, true),
 					pj("C02/sched", "rs W=2 six reads db4", "instr-w2", "rs", "reads6", 4, 600, false),
+					pj("C02/sched", "rs W=2 two requests of each extension db3", "instr-w2", "rs", "extpair", 3, 600, false),
+					pj("C02/sched", "os W=2 two requests of each extension db3", "instr-w2", "os", "extpair", 3, 600, false),
 					pj("C02/sched", "rs W=3 six reads db3", "instr-w3", "rs", "reads6", 3, 600, false),
 					pj("C02/sched", "os W=2 six reads db3", "instr-w2", "os", "reads6", 3, 600, false),
 					pj("C02/sched", "rs W=2 twelve reads db3", "instr-w2", "rs", "reads12", 3, 600, false),
@@ -472,6 +498,8 @@ func init() {
 					pj("C02/sched", "rs W=2 alloc db2", "instr-w2", "rs", "rwmix+cmdmix+rsplit", 2, 100, true),
 					of(pj("C02/sched", "rs (handlers without OpenFileWriter) W=2 db2", "instr-w2", "rs", "rwmix+short", 2, 100, false)),
 					pj("C02/sched", "rs W=2 six reads db2", "instr-w2", "rs", "reads6", 2, 100, false),
+					pj("C02/sched", "rs W=2 two requests of each extension db2", "instr-w2", "rs", "extpair", 2, 100, false),
+					polcap(pj("C02/sched", "os W=2 two requests of each extension db2", "instr-w2", "os", "extpair", 2, 100, false), 1),
 					pj("C02/sched", "os W=2 six reads db2", "instr-w2", "os", "reads6", 2, 100, false),
 					pj("C02/sched", "rs W=2 twelve reads db2", "instr-w2", "rs", "reads12", 2, 100, false),
 					pj("C02/sched", "rs W=2 over-long read requests, two listings db2", "instr-w2", "rs", "longlen+twodirs", 2, 100, false),
